@@ -587,4 +587,403 @@ theorem error_servfail (cd : Bool) (q : Query) (r : Res) (hok : ∀ m, r ≠ .ok
   | ok m => exact absurd rfl (hok m)
   | _ => simp [serverView, forwarded]
 
+/-! ## concrete upstreams: non-vacuity, regression examples of the repaired findings, replays of the open ones -/
+
+def cleanOut : UpOut → Bool
+  | .ok m | .noRecords m => m.all.all (·.proof == .indet)
+  | _ => true
+
+theorem traceFind_mem (trace : List (Query × UpOut)) (i : Nat) (q : Query) (o : UpOut)
+    (h : (traceFind trace i q).out = o) (hne : o ≠ .missing) : ∃ e ∈ trace, e.2 = o := by
+  induction trace generalizing i with
+  | nil => simp [traceFind] at h; exact absurd h.symm hne
+  | cons e rest ih =>
+    obtain ⟨q', o'⟩ := e
+    unfold traceFind at h
+    split at h
+    · exact ⟨(q', o'), List.mem_cons_self, h⟩
+    · obtain ⟨e, he, h'⟩ := ih _ h
+      exact ⟨e, List.mem_cons_of_mem _ he, h'⟩
+
+/-- a replayed trace of unvalidated records is a clean upstream -/
+theorem upClean_of_trace (trace : List (Query × UpOut)) (anchor : Nat → Bool) (covers : Nat → Nat → Bool)
+    (sigRes : Nat → Nat → GroupId → SigRes) (nsec : Nat → Nat → Nat → Proof)
+    (h : trace.all (fun e => cleanOut e.2) = true) :
+    UpClean { up := traceUp trace, anchor := anchor, covers := covers, sigRes := sigRes, nsec := nsec } := by
+  intro q m hm r hr
+  simp only [List.all_eq_true] at h
+  rcases hm with hm | hm
+  · obtain ⟨e, he, heq⟩ := traceFind_mem trace 0 q _ hm (by simp)
+    have := h e he
+    rw [heq] at this
+    simp only [cleanOut, List.all_eq_true, beq_iff_eq] at this
+    exact this r hr
+  · obtain ⟨e, he, heq⟩ := traceFind_mem trace 0 q _ hm (by simp)
+    have := h e he
+    rw [heq] at this
+    simp only [cleanOut, List.all_eq_true, beq_iff_eq] at this
+    exact this r hr
+
+theorem traceFind_mem' (trace : List (Query × UpOut)) (i : Nat) (q : Query) (o : UpOut)
+    (h : (traceFind trace i q).out = o) (hne : o ≠ .missing) : ∃ e ∈ trace, e.1 = q ∧ e.2 = o := by
+  induction trace generalizing i with
+  | nil => simp [traceFind] at h; exact absurd h.symm hne
+  | cons e rest ih =>
+    obtain ⟨q', o'⟩ := e
+    unfold traceFind at h
+    split at h
+    · rename_i hq
+      exact ⟨(q', o'), List.mem_cons_self, by simpa using hq, h⟩
+    · obtain ⟨e, he, h'⟩ := ih _ h
+      exact ⟨e, List.mem_cons_of_mem _ he, h'⟩
+
+/-- `UpClean` for any environment whose upstream replays a trace of unvalidated records -/
+theorem upClean_of_up (env : Env) (trace : List (Query × UpOut)) (hup : env.up = traceUp trace)
+    (h : trace.all (fun e => cleanOut e.2) = true) : UpClean env := by
+  intro q m hm r hr
+  simp only [List.all_eq_true] at h
+  rw [hup] at hm
+  rcases hm with hm | hm
+  · obtain ⟨e, he, heq⟩ := traceFind_mem trace 0 q _ hm (by simp)
+    have := h e he
+    rw [heq] at this
+    simp only [cleanOut, List.all_eq_true, beq_iff_eq] at this
+    exact this r hr
+  · obtain ⟨e, he, heq⟩ := traceFind_mem trace 0 q _ hm (by simp)
+    have := h e he
+    rw [heq] at this
+    simp only [cleanOut, List.all_eq_true, beq_iff_eq] at this
+    exact this r hr
+
+
+namespace Ex
+/-! A two-level hierarchy: the root (trust anchor `kr`) delegates `z.` with a DS `dsz` covering `kz`;
+`www.z. A` is signed by `kz`.  Record ids: a 0, sigA 1, kz 2, sigKz 3, dsz 4, sigDs 5, kr 6, sigKr 7. -/
+def a : Rec := { name := ["www", "z"], rtype := 1, rid := 0 }
+def sigA : Rec := { name := ["www", "z"], rtype := 46, rid := 1, covered := 1, signer := ["z"], labels := 2 }
+def kz : Rec := { name := ["z"], rtype := 48, rid := 2, tag := 7, alg := 15, algSupp := true }
+def sigKz : Rec := { name := ["z"], rtype := 46, rid := 3, covered := 48, signer := ["z"], labels := 1 }
+def dsz : Rec := { name := ["z"], rtype := 43, rid := 4, tag := 7, alg := 15, algSupp := true, digSupp := true }
+def sigDs : Rec := { name := ["z"], rtype := 46, rid := 5, covered := 43, signer := [], labels := 1 }
+def kr : Rec := { name := [], rtype := 48, rid := 6, tag := 9, alg := 15, algSupp := true }
+def sigKr : Rec := { name := [], rtype := 46, rid := 7, covered := 48, signer := [], labels := 0 }
+
+def msg (an : List Rec) : UpOut := .ok { rcode := 0, an := an, ns := [], ad := [] }
+
+def qA : Query := ⟨["www", "z"], 1⟩
+def qKz : Query := ⟨["z"], 48⟩
+def qDs : Query := ⟨["z"], 43⟩
+def qKr : Query := ⟨[], 48⟩
+
+/-- the crypto oracles of the example: `kr` is the anchor, `dsz` covers `kz`, each RRSIG verifies under the
+key that made it (over the RRset occurrence with the stated exchange index), and an RRSIG over an
+*empty* RRset is `Ok((Bogus, None))` as in `verify_rrset_with_dnskey` (`dsAt`: the exchange whose DS RRset is intact) -/
+def mkEnv (trace : List (Query × UpOut)) (dsAt : Option Nat := some 2) : Env where
+  up := traceUp trace
+  anchor rid := rid == 6
+  covers d k := d == 4 && k == 2
+  sigRes k s g :=
+    if (k, s, g) = (2, 1, (⟨0, 0, ["www", "z"], 1⟩ : GroupId)) then .secure
+    else if (k, s) = (2, 3) && g.rtype == 48 && g.name == ["z"] then .secure
+    else if (k, s) = (6, 7) && g.rtype == 48 && g.name == [] then .secure
+    else if (k, s) = (6, 5) && g.rtype == 43 then (if some g.qid == dsAt then .secure else .bogus)
+    else .err
+  nsec _ _ _ := .bogus
+
+def traceGood : List (Query × UpOut) :=
+  [(qA, msg [a, sigA]), (qKz, msg [kz, sigKz]), (qDs, msg [dsz, sigDs]), (qKr, msg [kr, sigKr])]
+
+/-- (was F1) the DS record is removed from the answer to `z. DS`; its RRSIG stays -/
+def traceNoDs : List (Query × UpOut) :=
+  [(qA, msg [a, sigA]), (qKz, msg [kz, sigKz]), (qDs, msg [sigDs]), (qKr, msg [kr, sigKr])]
+
+/-- (was F2) the root DNSKEY is removed from the answer to `. DNSKEY`; its RRSIG stays -/
+def traceOrphan : List (Query × UpOut) := [(qKr, msg [sigKr])]
+
+/-- (was F3) `z. DNSKEY` is answered with the DS-covered key alone, no RRSIG -/
+def traceUnsignedKey : List (Query × UpOut) :=
+  [(qKz, msg [kz]), (qDs, msg [dsz, sigDs]), (qKr, msg [kr, sigKr])]
+
+def sec' (r : Rec) : Rec := { r with proof := .secure }
+def ins' (r : Rec) : Rec := { r with proof := .insecure }
+end Ex
+
+namespace Ex
+/-- (was F7) `alias.z. A` is answered with the (genuine, signed) A RRset of `www.z.`; the CNAME is gone -/
+def qAlias : Query := ⟨["alias", "z"], 1⟩
+def traceNoCname : List (Query × UpOut) :=
+  [(qAlias, msg [a, sigA]), (qKz, msg [kz, sigKz]), (qDs, msg [dsz, sigDs]), (qKr, msg [kr, sigKr])]
+
+/-- (was F8) `www.z. A` is answered NXDOMAIN with one authority record of the unsigned zone `u.` (NS RRset of the
+delegation; its DS lookup is a validated NSEC denial).  Record ids: u 20, nsecU 21, sigN 22. -/
+def u : Rec := { name := ["u"], rtype := 2, rid := 20 }
+def nsecU : Rec := { name := ["u"], rtype := 47, rid := 21 }
+def sigN : Rec := { name := ["u"], rtype := 46, rid := 22, covered := 47, signer := [], labels := 1 }
+def traceForeignInsecure : List (Query × UpOut) :=
+  [(qA, .ok { rcode := 3, an := [], ns := [u], ad := [] }),
+   (⟨["u"], 2⟩, msg [u]),
+   (⟨["u"], 43⟩, .ok { rcode := 0, an := [], ns := [nsecU, sigN], ad := [] }),
+   (qKr, msg [kr, sigKr])]
+def envForeignInsecure : Env :=
+  { mkEnv traceForeignInsecure none with
+    sigRes := fun k s g =>
+      if (k, s) = (6, 7) && g.rtype == 48 && g.name == [] then .secure
+      else if (k, s) = (6, 22) && g.rtype == 47 then .secure
+      else .err
+    nsec := fun qid mask _ => if qid == 2 && mask == 1 then .secure else .bogus }
+end Ex
+
+theorem zoneOf_suffix {z n : DName} (h : zoneOf z n = true) : z <:+ n := by
+  unfold zoneOf at h
+  simp only [Bool.and_eq_true, decide_eq_true_eq, beq_iff_eq] at h
+  rw [← h.2]
+  exact List.drop_suffix _ _
+
+/-- `SignerDiscipline` for an upstream that replays a trace on which the class predicate of
+`C07.ForeignSignerInheritsInsecure` is false -/
+theorem signerDiscipline_of_up (env : Env) (trace : List (Query × UpOut)) (hup : env.up = traceUp trace)
+    (h : foreignSigner trace = false) : SignerDiscipline env := by
+  unfold foreignSigner at h
+  simp only [List.any_eq_false] at h
+  constructor
+  · intro q qid m hupm sec hsec s hs hsig
+    unfold upMsg at hupm
+    rw [hup] at hupm
+    have key : ∀ m', (traceUp trace q).out = .ok m' ∨ (traceUp trace q).out = .noRecords m' →
+        s ∈ m'.all → s.signer <:+ s.name := by
+      intro m' hm hsm
+      rcases hm with hm | hm
+      · obtain ⟨e, he, _, heq2⟩ := traceFind_mem' trace 0 _ _ hm (by simp)
+        have := h e he
+        rw [heq2] at this
+        simp only [Bool.or_eq_true, not_or, Bool.not_eq_true, List.any_eq_false, Bool.and_eq_true,
+          Bool.not_eq_true', not_and, Bool.not_eq_false] at this
+        exact zoneOf_suffix (this.1 s hsm hsig)
+      · obtain ⟨e, he, _, heq2⟩ := traceFind_mem' trace 0 _ _ hm (by simp)
+        have := h e he
+        rw [heq2] at this
+        simp only [Bool.or_eq_true, not_or, Bool.not_eq_true, List.any_eq_false, Bool.and_eq_true,
+          Bool.not_eq_true', not_and, Bool.not_eq_false] at this
+        exact zoneOf_suffix (this.1 s hsm hsig)
+    split at hupm
+    · rename_i m' hm
+      injection hupm with hupm; injection hupm with _ hupm; subst hupm
+      refine key m' (Or.inl hm) ?_
+      unfold Msg.all
+      match sec, hsec with
+      | 0, _ => simp [Msg.sec] at hs; simp [hs]
+      | 1, _ => simp [Msg.sec] at hs; simp [hs]
+      | 2, _ => simp [Msg.sec] at hs; simp [hs]
+    · rename_i m' hm
+      injection hupm with hupm; injection hupm with _ hupm; subst hupm
+      refine key m' (Or.inr hm) ?_
+      unfold Msg.all
+      match sec, hsec with
+      | 0, _ => simp [Msg.sec] at hs
+      | 1, _ => simp [Msg.sec] at hs; simp [hs]
+      | 2, _ => simp [Msg.sec] at hs
+    · simp at hupm
+  · intro z qid m hupm k hk hkt
+    unfold upMsg at hupm
+    rw [hup] at hupm
+    split at hupm
+    · rename_i m' hm
+      obtain ⟨e, he, heq1, heq2⟩ := traceFind_mem' trace 0 _ _ hm (by simp)
+      have := h e he
+      rw [heq1, heq2] at this
+      injection hupm with hupm; injection hupm with _ hupm; subst hupm
+      simp only [Bool.or_eq_true, not_or, Bool.not_eq_true, tDNSKEY, beq_self_eq_true, Bool.true_and,
+        List.any_eq_false, Bool.and_eq_true, beq_iff_eq, bne_iff_ne, ne_eq, not_and, Decidable.not_not] at this
+      exact this.2 k hk hkt
+    · rename_i m' hm
+      injection hupm with hupm; injection hupm with _ hupm; subst hupm
+      simp at hk
+    · simp at hupm
+
+namespace Ex
+def nsZ : Rec := { name := ["z"], rtype := 2, rid := 30 }
+def emptyMsg : UpOut := .ok { rcode := 0, an := [], ns := [], ad := [] }
+/-- the unvalidated NS answers `find_ds_records` walks over: `z.` is a zone cut, the names below it are not -/
+def nsTrace : List (Query × UpOut) :=
+  [(⟨["z"], 2⟩, msg [nsZ]), (⟨["alias", "z"], 2⟩, emptyMsg), (⟨["www", "z"], 2⟩, emptyMsg)]
+/-- (was F9) `z. SOA` is answered with the RRSIG of the SOA alone -/
+def sigSoaZ : Rec := { name := ["z"], rtype := 46, rid := 31, covered := 6, signer := ["z"], labels := 1 }
+def qSoa : Query := ⟨["z"], 6⟩
+def traceSoa : List (Query × UpOut) :=
+  [(qSoa, msg [sigSoaZ]), (qKz, msg [kz, sigKz]), (qDs, msg [dsz, sigDs]), (qKr, msg [kr, sigKr])] ++ nsTrace
+def bog' (r : Rec) : Rec := { r with proof := .bogus }
+
+/-- open finding `C07.ForeignSignerInheritsInsecure`, route 1: the RRSIG over `www.z. A` replaced by one naming the
+unsigned zone `u.` as signer; `u. DNSKEY` holds an (unsigned) key `ku`, `u. DS` is a validated NSEC denial.
+Record ids: sigF 41, ku 40. -/
+def sigF : Rec := { name := ["www", "z"], rtype := 46, rid := 41, covered := 1, signer := ["u"], labels := 2 }
+def ku : Rec := { name := ["u"], rtype := 48, rid := 40, tag := 3, alg := 15, algSupp := true }
+def traceForeignSigner : List (Query × UpOut) :=
+  [(qA, msg [a, sigF]), (⟨["u"], 48⟩, msg [ku]),
+   (⟨["u"], 43⟩, .ok { rcode := 0, an := [], ns := [nsecU, sigN], ad := [] }), (qKr, msg [kr, sigKr])]
+/-- route 2: the honest RRSIG (signer `z.`), but the answer to `z. DNSKEY` replaced by a CNAME at `z.` (so that it
+"answers the question") and the foreign key `ku` -/
+def cnameZ : Rec := { name := ["z"], rtype := 5, rid := 42 }
+def traceForeignKey : List (Query × UpOut) :=
+  [(qA, msg [a, sigA]), (qKz, msg [cnameZ, ku]),
+   (⟨["u"], 43⟩, .ok { rcode := 0, an := [], ns := [nsecU, sigN], ad := [] }), (qKr, msg [kr, sigKr])]
+def envForeign (trace : List (Query × UpOut)) : Env := { envForeignInsecure with up := traceUp trace }
+end Ex
+
+/-! ### non-vacuity -/
+
+open Ex in
+/-- on the untampered hierarchy the validator returns the answer Secure … -/
+theorem ex_good_secure :
+    validate (mkEnv traceGood) 27 0 qA = .ok { rcode := 0, an := [sec' a, sec' sigA], ns := [], ad := [] } := by
+  decide
+
+open Ex in
+theorem ex_good_clean : UpClean (Ex.mkEnv Ex.traceGood) := upClean_of_trace _ _ _ _ _ (by decide)
+
+open Ex in
+/-- … so `secure_implies_chain` applies to a concrete, non-trivial instance (three links: RRSIG by `kz`,
+DS covering `kz` signed by the root key, root key = anchor). -/
+example : Chain (mkEnv traceGood) qA 0 a :=
+  secure_implies_chain ex_good_clean ex_good_secure (sec := 0) (by omega) (r := sec' a) (by simp [Msg.sec])
+    rfl (by decide) (by decide)
+
+open Ex in
+theorem ex_good_dnskey :
+    validate (mkEnv traceGood) 27 0 qKz = .ok { rcode := 0, an := [sec' kz, sec' sigKz], ns := [], ad := [] } := by
+  decide
+
+open Ex in
+example : KeySigned (mkEnv traceGood) qKz 0 kz :=
+  secure_dnskey_signed ex_good_clean ex_good_dnskey (sec := 0) (by omega) (r := sec' kz) (by simp [Msg.sec]) rfl rfl
+
+open Ex in
+example : KeySecure (mkEnv traceGood) qKz 0 kz :=
+  secure_dnskey_implies ex_good_clean ex_good_dnskey (sec := 0) (by omega) (r := sec' kz) (by simp [Msg.sec]) rfl rfl
+
+open Ex in
+/-- the good answer is forwarded NOERROR with AD (hypothesis of `ad_only_if_all_secure`) -/
+example : serverView false qA (validate (mkEnv traceGood) 27 0 qA) = (0, true) := by decide
+
+open Ex in
+example : ∃ x ∈ summarised qA (.ok { rcode := 0, an := [bog' a], ns := [], ad := [] }), x.proof = .bogus := by decide
+
+open Ex in
+/-- `validate … ≠ abort "panic"` on a concrete instance is what `no_panic` says for every instance -/
+example : validate (mkEnv traceOrphan none) 27 0 qKr ≠ .abort "panic" := no_panic _ 27 0 qKr
+
+/-! ### regression examples: the replays of the eight repaired findings -/
+
+open Ex in
+/-- (was `ds_answer_without_ds_downgrades`, fix aabfc01) the DS record removed from the DS answer: the answer is no
+longer Insecure but Bogus, and the server answers SERVFAIL -/
+theorem regression_ds_answer_without_ds :
+    validate (mkEnv traceNoDs none) 27 0 qA = .ok { rcode := 0, an := [bog' a, sigA], ns := [], ad := [] } ∧
+    serverView false qA (validate (mkEnv traceNoDs none) 27 0 qA) = (2, false) := by
+  decide
+
+open Ex in
+/-- (was `orphan_dnskey_rrsig_panics`, fix e338561) an RRSIG covering DNSKEY without a DNSKEY: an error, no panic -/
+theorem regression_orphan_dnskey_rrsig :
+    validate (mkEnv traceOrphan none) 27 0 qKr = .errNsec .bogus := by
+  decide
+
+open Ex in
+/-- (was `unsigned_dnskey_rrset_secure`, fix 8ec5af8) the DS-covered key alone, without RRSIG: Bogus, SERVFAIL -/
+theorem regression_unsigned_dnskey_rrset :
+    validate (mkEnv traceUnsignedKey (some 1)) 27 0 qKz = .ok { rcode := 0, an := [bog' kz], ns := [], ad := [] } ∧
+    serverView false qKz (validate (mkEnv traceUnsignedKey (some 1)) 27 0 qKz) = (2, false) := by
+  decide
+
+open Ex in
+/-- (was `answer_section_without_answer_accepted`, fix 2bee91e) the answer section holds only other names' Secure
+records: an error -/
+theorem regression_answer_section_without_answer :
+    validate (mkEnv (traceNoCname ++ nsTrace)) 27 0 qAlias = .errNsec .bogus := by
+  decide
+
+open Ex in
+/-- (was `insecure_authority_accepts_denial`, fix 2bee91e) NXDOMAIN for the signed `www.z.` carrying a record of the
+unsigned zone `u.`: an error -/
+theorem regression_insecure_authority_denial :
+    validate (envForeign (traceForeignInsecure ++ nsTrace ++ [(qDs, msg [dsz, sigDs])])) 27 0 qA = .errNsec .bogus := by
+  decide
+
+open Ex in
+/-- (was `soa_answer_without_soa_not_servfail`, fix 2bee91e) the SOA query answered with the SOA's RRSIG alone: an
+error, hence SERVFAIL (`error_servfail`) -/
+theorem regression_soa_answer_without_soa :
+    validate (mkEnv traceSoa) 27 0 qSoa = .errNsec .bogus ∧
+    serverView false qSoa (validate (mkEnv traceSoa) 27 0 qSoa) = (2, false) := by
+  decide
+
+/-- (was `ad_with_bogus_soa`, fix cdd0f6a) a negative answer with a Bogus SOA next to Secure NSEC records: SERVFAIL -/
+theorem regression_ad_with_bogus_soa :
+    let nsec : Rec := { name := ["a", "z"], rtype := 47, rid := 0, proof := .secure }
+    let sig : Rec := { name := ["a", "z"], rtype := 46, rid := 1, covered := 47, signer := ["z"], labels := 2, proof := .secure }
+    let soa : Rec := { name := ["z"], rtype := 6, rid := 2, proof := .bogus }
+    serverView false ⟨["b", "z"], 1⟩ (.ok { rcode := 3, an := [], ns := [nsec, sig, soa], ad := [] }) = (2, false) := by
+  decide
+
+/-- (was `bogus_negative_without_soa_forwarded`, fix cdd0f6a) a negative answer without SOA that carries a Bogus
+record: SERVFAIL -/
+theorem regression_bogus_negative_without_soa :
+    let nsec : Rec := { name := ["a", "z"], rtype := 47, rid := 0, proof := .secure }
+    let sig : Rec := { name := ["a", "z"], rtype := 46, rid := 1, covered := 47, signer := ["z"], labels := 2, proof := .secure }
+    let sigSoa : Rec := { name := ["z"], rtype := 46, rid := 3, covered := 6, signer := ["z"], labels := 1, proof := .bogus }
+    serverView false ⟨["b", "z"], 1⟩ (.ok { rcode := 3, an := [], ns := [nsec, sig, sigSoa], ad := [] }) = (2, false) := by
+  decide
+
+/-! ### replays of the open findings -/
+
+open Ex in
+/-- **Replay of the open finding `C07.ForeignSignerInheritsInsecure`, route 1** (kernel-checked).  `www.z. A` comes
+with an RRSIG that names the unsigned zone `u.` as signer (class predicate true).  Nothing is verified: the RRset
+inherits "Insecure" from `u.`'s key and is returned Insecure with NOERROR, although `z.` is securely delegated. -/
+theorem foreign_signer_inherits_insecure :
+    foreignSigner traceForeignSigner = true ∧
+    validate (envForeign traceForeignSigner) 27 0 qA =
+      .ok { rcode := 0, an := [ins' a, ins' sigF], ns := [], ad := [] } ∧
+    serverView false qA (validate (envForeign traceForeignSigner) 27 0 qA) = (0, false) := by
+  decide
+
+open Ex in
+/-- **… route 2** (kernel-checked): the honest RRSIG (signer `z.`), but the answer to `z. DNSKEY` holds a CNAME at
+`z.` and the Insecure key of `u.`; the RRset inherits "Insecure" from the foreign key. -/
+theorem foreign_key_inherits_insecure :
+    foreignSigner traceForeignKey = true ∧
+    validate (envForeign traceForeignKey) 27 0 qA = .ok { rcode := 0, an := [ins' a, ins' sigA], ns := [], ad := [] } := by
+  decide
+
+open Ex in
+/-- non-vacuity of `insecure_implies_justified` on that run: the Insecure record is justified by the validated NSEC
+denial of `u. DS` — a zone that is not above `www.z.`, which `insecure_implies_denial_partial` excludes under
+`SignerDiscipline`. -/
+example : ∃ zone, DsDenied (envForeign traceForeignSigner) zone :=
+  insecure_implies_justified (upClean_of_up _ traceForeignSigner rfl (by decide))
+    foreign_signer_inherits_insecure.2.1 (sec := 0) (by omega) (r := ins' a) (by simp [Msg.sec]) rfl
+
+namespace Ex
+/-- a legitimately insecure answer: `www.u. A` of the unsigned zone `u.` (no RRSIG); `u. NS` marks the zone cut -/
+def au : Rec := { name := ["www", "u"], rtype := 1, rid := 50 }
+def qAu : Query := ⟨["www", "u"], 1⟩
+def traceInsecureZone : List (Query × UpOut) :=
+  [(qAu, msg [au]), (⟨["www", "u"], 2⟩, emptyMsg),
+   (⟨["u"], 43⟩, .ok { rcode := 0, an := [], ns := [nsecU, sigN], ad := [] }), (qKr, msg [kr, sigKr]),
+   (⟨["u"], 2⟩, msg [u])]
+end Ex
+
+open Ex in
+theorem ex_insecure_zone :
+    validate (envForeign traceInsecureZone) 27 0 qAu = .ok { rcode := 0, an := [ins' au], ns := [], ad := [] } := by
+  decide
+
+open Ex in
+/-- non-vacuity of `insecure_implies_denial_partial`: its hypotheses (`UpClean`, `SignerDiscipline`) hold of the
+upstream of an honestly unsigned zone, and the conclusion names a zone cut above `www.u.` -/
+example : ∃ zone, zone <:+ ["www", "u"] ∧ DsDenied (envForeign traceInsecureZone) zone :=
+  insecure_implies_denial_partial (upClean_of_up _ traceInsecureZone rfl (by decide))
+    (signerDiscipline_of_up _ traceInsecureZone rfl (by decide))
+    ex_insecure_zone (sec := 0) (by omega) (r := ins' au) (by simp [Msg.sec]) rfl
+
 end HickoryVerif.C07
